@@ -168,7 +168,7 @@ def run_case(case):
         for pk in case["packets"]:
             if kind == "rt":
                 tx.name = None if pk.get("name") is None else (pk["name"]["s"] if "s" in pk["name"] else bytes.fromhex(pk["name"]["b"]))
-                tx.show_pa_level = bool(pk.get("show_pa"))
+                tx.show_pa_level = pk["show_pa"] if isinstance(pk.get("show_pa"), int) else bool(pk.get("show_pa"))  # True/False or a truthy int
                 tx.pa_level = pk.get("pa", 0)
                 chunks, exp = [], {"name": None, "pa": pk.get("pa", 0) if pk.get("show_pa") else None, "data": []}
                 if pk.get("name") is not None:
@@ -198,8 +198,14 @@ def run_case(case):
                         tol = max(tol, 1e-6)
                     elif it[0] == "url":
                         s = fb.UrlServiceData()
-                        s.pa_level_at_1_meter = it[2]
-                        s.data = it[1]
+                        if len(it) > 3 and it[3] == "power-last":
+                            # the application looked at the buffer (e.g. to ask len_available()) before it set the power
+                            s.data = it[1]
+                            tx.len_available(fb.chunk(s.buffer))
+                            s.pa_level_at_1_meter = it[2]
+                        else:
+                            s.pa_level_at_1_meter = it[2]
+                            s.data = it[1]
                         chunks.append(fb.chunk(s.buffer))
                         exp["data"].append(("url", it[1], it[2]))
                     else:
@@ -312,6 +318,7 @@ def _items_strategy(st):
         st.tuples(st.just("tempm"), temp_m),
         st.tuples(st.just("tempf"), temp_m.map(lambda m: m / 100.0)),
         st.tuples(st.just("url"), url, st.integers(-128, 127)),
+        st.tuples(st.just("url"), url, st.integers(-128, 127), st.just("power-last")),
         st.tuples(st.just("raw"), st.sampled_from([0xFF, 0x02, 0x03, 0x19, 0x24, 0x00]), st.binary(max_size=8).map(bytes.hex)),
     ).map(list)
 
@@ -320,7 +327,7 @@ def _rt_strategy():
     from hypothesis import strategies as st
     namev = st.one_of(st.none(), st.none(), st.text(alphabet="abcXYZ01 ", max_size=6).map(lambda s: {"s": s}),
                       st.binary(max_size=6).map(lambda b: {"b": b.hex()}))
-    pkt = st.fixed_dictionaries({"name": namev, "show_pa": st.booleans(), "pa": st.sampled_from([-18, -12, -6, 0]),
+    pkt = st.fixed_dictionaries({"name": namev, "show_pa": st.sampled_from([False, True, True, 2, 4]), "pa": st.sampled_from([-18, -12, -6, 0]),
                                  "items": st.lists(_items_strategy(st), min_size=0, max_size=3)})
     tune = st.one_of(st.none(), st.none(), st.tuples(st.just("assign"), st.integers(0, 2)).map(list))
     return st.fixed_dictionaries({"kind": st.just("rt"), "hops": st.integers(0, 2), "rx_tune": tune, "tx_tune": tune,
